@@ -57,6 +57,10 @@ CLAIMED = {
    text='Machine-checked proof (Lean 4): gate_exact — for EVERY device (any set of disabled options), every operation and every operand list the model of check_instruction admits the instruction iff none of the flags the independent feature statement (Spec.requires: multiply family, jmp/call, movw, lpm/elpm/spm forms, break, eijmp/eicall, smallest-core word/stack instructions, X/Y pointer and displacement forms) lists is disabled; gate_matches_model (the 54 x 115 matrix extracted by executing Device::check_operation equals the model, kernel-decided); device_frame (every instruction except lds/sts assembles to the same words whatever the device). Tie: exhaustive differential run of every device x every mnemonic/addressing form through build_str against model and spec.',
    note='Trusted: Lean kernel, Spec.requires (hand-written from the property text), model of device.rs tied by the extracted matrix and exhaustive correspondence.',
    technique='Lean 4 theorem for all devices/forms + kernel-decided extracted gate matrix + exhaustive device x form correspondence', ref='6/C13'),
+ 'C14': dict(
+   text='Machine-checked proof (Lean 4), token level, each for EVERY text of its class: space_absorbs / blanks_irrelevant (any run of blanks and tabs where space() is read), asm_comment_any / slash_comment_any / c_comment_any / comment_ends_line (any comment text in the three styles, blanks after */), operation_case, reg8_case, reg16_case, function_case, symbol_case, alias_case, radix_irrelevant (for every n < 2^63 the decimal, 0x, $, 0b and 0-octal spellings, hex digits in any case, read as the constant n), lines_eol (any mixture of LF and CRLF yields the same lines), grammar_pinned (the grammar rules the hand-written PEG mirror was written against are the rules of this tree). Tie and composition: metamorphic + differential run — base programs from four generators respelled by a token-level respeller; build_str(respelled) must equal build_str(original). Three genuine defects repaired (blanks after */, around the + of Y+q, after unary operators).',
+   note='Trusted: Lean kernel, the respeller (which spellings count as meaningless follows the property text; exclusions listed in the evidence assumptions), the PEG mirror tied by correspondence and by grammar_pinned (a digest computed by tools/gen.py). The whole-line statement parse(l ++ comment) = parse(l) needs a locality lemma over the whole PEG mirror and is not proved; it is exercised by the metamorphic run.',
+   technique='Lean 4 token-level theorems (blanks, comments, letter case, radix for all values, line ends) + metamorphic/differential correspondence with a token-level respeller', ref='6/C14'),
 }
 
 def main():
